@@ -7,6 +7,6 @@ CONSTANTS
 INIT Init
 NEXT Next
 VIEW View
-INVARIANTS NoEcho OncePerPath LoopFree Reach AtMostThree
-
+INVARIANTS NoEcho LoopFree Reach AtMostThree
 ACTION_CONSTRAINT DumpEdge
+PROPERTIES OncePerPathA
